@@ -194,8 +194,9 @@ def apply_event(role: str, s: t.Any, ev: Event) -> t.Any:
     return s.receive(GARBAGE)
 
 
-Ghost = t.Tuple[bool, t.Tuple[t.Tuple[int, str], ...], int]
-G0: Ghost = (False, (), 0)
+Ghost = t.Tuple[bool, t.Tuple[t.Tuple[int, str], ...], int, int]  # (traffic, in progress, ids issued, failed-encode calls made)
+G0: Ghost = (False, (), 0, 0)
+MAX_BAD_CALLS = 2  # bound on failing-encode calls per history (keeps the space finite even if they leak state)
 
 
 class Rec(t.NamedTuple):
@@ -275,10 +276,12 @@ def _server_expect(inprog: t.Dict[int, str], msgs: t.List[t.Tuple[str, int]]) ->
 
 def monitors(role: str, g: Ghost, ev: Event, rec: Rec, viol: t.List[t.Tuple[str, str, str]], kmax: int) -> Ghost:
     kind, name, i = ev
-    traffic, inprog_t, issued = g
+    traffic, inprog_t, issued, nbad = g
     inprog = dict(inprog_t)
     pre, post, exc, ret, out = rec
     accepted = exc is None
+    if kind == "callbad":
+        nbad += 1
 
     def flag(prop: str, key: str, what: str) -> None:
         viol.append((prop, key, what))
@@ -308,7 +311,7 @@ def monitors(role: str, g: Ghost, ev: Event, rec: Rec, viol: t.List[t.Tuple[str,
             flag("C08", f"a-closed-accepted:{role}:{kind}:{name}", f"closed {role} accepted {kind} {name}")
         if out:
             flag("C08", f"a-closed-bytes:{role}:{name}", f"closed {role} produced {len(out)} bytes on {kind} {name}")
-        return g
+        return (g[0], g[1], g[2], nbad)
     # (h) a refused call changes nothing visible
     if is_call and not accepted and post != pre:
         if role == "server" and pre == S.BEFORE_OPEN and post == S.OPENED and name != "unbind" and isinstance(exc, L.LDAPError):
@@ -443,7 +446,7 @@ def monitors(role: str, g: Ghost, ev: Event, rec: Rec, viol: t.List[t.Tuple[str,
         flag("C08", "d-bind-with-outstanding:client", f"client accepted a bind request while {sorted(definite.items())} were in progress")
     if post == S.CLOSED:
         inprog = {}
-    return (traffic or accepted, tuple(sorted(inprog.items())), issued2)
+    return (traffic or accepted, tuple(sorted(inprog.items())), issued2, nbad)
 
 
 # ---------------------------------------------------------------------------------------
@@ -470,6 +473,8 @@ def _expand(chunk: t.Tuple[int, int]) -> t.List[t.Any]:
         s, g, hist = frontier[idx]
         for ev in evs:
             if role == "client" and ev[0] in ("call", "callbad") and ev[1] != "unbind" and g[2] >= kmax:
+                continue
+            if ev[0] == "callbad" and g[3] >= MAX_BAD_CALLS:
                 continue
             s2, g2, rec, viol = step(role, s, g, ev, kmax)
             outcome = (ev[0], ev[1], rec.pre.name, rec.post.name, type(rec.exc).__name__ if rec.exc else "ok", bool(rec.out))
